@@ -348,6 +348,85 @@ def check_free(chk, m, L, R, CUR, PAR):
                 chk.ob("M4.free-child", pid, not calls, "an absent subtree is not freed", f.loc, name)
 
 
+def check_list_iterators(chk, m, L, R, CUR, PAR):
+    """M5: the iterators over list spines.  iter->parent is the top of a left-leaning spine, fixed by bintree_iterate_list:
+    the step functions never write it; the left iterator steps from curr to the node whose left child is curr (found by
+    walking left links down from that fixed top), ends when curr is the top, and hands out curr->right each time; the right
+    iterator hands out curr->left and moves to curr->right while the filter accepts curr."""
+    n = 0
+    for name in ("list_left_iterator", "list_right_iterator"):
+        if not m.has_fn(name):
+            chk.unknown("M5.spine-top-fixed", name, "anchor vanished")
+            continue
+        fn, ss = segs(m, name)
+        chk.note_fn(fn)
+        wr = [(s, e) for s, p in ss for e in p.events if e.kind == "store" and ptr_parts(e.ptr) == (("arg", 0), PAR, ())]
+        chk.ob("M5.spine-top-fixed", name, not wr,
+               "the step function never writes iter->parent (the top of the spine every later step starts its walk from)" if not wr else
+               "iter->parent is overwritten at %s: the next call starts its walk below the top of the spine and ends the iteration "
+               "early" % wr[0][1].inst.loc, (wr[0][1].inst.loc if wr else fn.loc), name)
+        cur0 = ("ld", paths.mkptr(("arg", 0), CUR), 8)
+        # the old position may reach a later segment as the SSA name of the load made on entry
+        cur_names = set(e.inst.name for s_, p_ in ss for e in p_.events
+                        if e.kind == "load" and e.ptr == paths.mkptr(("arg", 0), CUR) and e.inst is not None and e.inst.name)
+
+        def is_cur(x):
+            x = strip_casts(x)
+            return x[:2] == cur0[:2] or (x[0] == "sym" and x[1] in cur_names)
+        for s, p in ss:
+            if p.end != "ret":
+                continue
+            n += 1
+            sid = "%s %s..ret" % (name, s.lstrip("%"))
+            st = [e for e in p.events if e.kind == "store" and ptr_parts(e.ptr) == (("arg", 0), CUR, ())]
+            r = strip_casts(p.ret) if p.ret is not None else None
+            if name == "list_left_iterator":
+                if r == ("null",) or (r is not None and r[0] == "c" and r[2] == 0):
+                    continue
+                # returns curr->right
+                ok_ret = r is not None and r[0] == "ld" and ptr_parts(r[1])[1] == R and is_cur(ptr_parts(r[1])[0])
+                chk.ob("M5.left-yield", sid, ok_ret, "each step hands out curr->right (got %s)" % fmt(p.ret)[:50], p.ret_inst.loc, name)
+                if len(st) != 1:
+                    chk.ob("M5.left-step", sid, False, "iter->curr is stored %d times on a returning segment" % len(st), p.ret_inst.loc, name)
+                    continue
+                v = st[0].val
+                if v == ("null",):
+                    top = None
+                    for c, taken, inst in p.conds:
+                        cc = strip_casts(c)
+                        if cc[0] == "icmp" and cc[1] in ("eq", "ne"):
+                            x, y = strip_casts(cc[2]), strip_casts(cc[3])
+                            par0 = ("ld", paths.mkptr(("arg", 0), PAR))
+                            if (is_cur(x) and y[:2] == par0) or (is_cur(y) and x[:2] == par0):
+                                top = (cc[1] == "eq") == bool(taken)
+                    chk.ob("M5.left-step", sid, top is True, "the iteration ends (curr := NULL) exactly when curr is the top of the spine",
+                           st[0].inst.loc, name)
+                else:
+                    # the new position X satisfies X->left == curr on this segment
+                    found = False
+                    for c, taken, inst in p.conds:
+                        cc = strip_casts(c)
+                        if cc[0] == "icmp" and cc[1] in ("eq", "ne") and (cc[1] == "eq") == bool(taken):
+                            for a, b in ((cc[2], cc[3]), (cc[3], cc[2])):
+                                a, b = strip_casts(a), strip_casts(b)
+                                if a[0] == "ld" and ptr_parts(a[1]) == (strip_casts(v), L, ()) and is_cur(b):
+                                    found = True
+                    chk.ob("M5.left-step", sid, found, "the new position is the node whose left child is the old position",
+                           st[0].inst.loc, name)
+    chk.expect("M5", "returning segments of the list step functions", n, 3)
+
+
+def eq_fact2(p, a, b):
+    """a == b known on the path (loads compared by address, ignoring memory epochs)"""
+    for c, taken, inst in p.conds:
+        cc = strip_casts(c)
+        if cc[0] == "icmp" and cc[1] in ("eq", "ne"):
+            x, y = strip_casts(cc[2]), strip_casts(cc[3])
+            if {x[:2], y[:2]} == {a[:2], b[:2]}:
+                return (cc[1] == "eq") == bool(taken)
+    return None
+
+
 def run(chk):
     chk.explanation = (
         "bintree.c (not built by the suite) is compiled and analysed on loop-free segments of its IR: the thread/un-thread "
@@ -359,9 +438,10 @@ def run(chk):
     chk.rule("M2", "post-order: marking sets bit 0 of left; every masked read and the restore use exactly ~1; the restore precedes returning the node")
     chk.rule("M3", "bintree_free: no access through n after dealloc(n); parent link patched after dealloc and before the iterator advances; the iterator records the parent and clears curr when returning the root")
     chk.rule("M4", "bintree_free_left/right: free only a present child, then clear the link")
+    chk.rule("M5", "list iterators: iter->parent (top of the spine) is never written by a step; the left iterator yields curr->right, moves to the node whose left child is curr, and ends exactly at the top")
     chk.assumptions += ["nodes are at least 2-byte aligned (bit 0 of a link is free)",
                         "visiting order and restoration of every link for every tree shape are NOT decided (heap shape); "
-                        "the list iterators over list spines are not analysed"]
+                        "the list iterators are decided only as the M5 clauses"]
     chk.not_decided += ["iterators return each node once in traversal order for every shape", "all links restored after complete iteration",
                         "list iterator equals recursive list traversal"]
     m = build.load_unit(UNIT)
@@ -371,3 +451,4 @@ def run(chk):
     check_morris(chk, m, "pre_order_iterator", "pre", L, R, CUR)
     check_post_order(chk, m, L, R, CUR, PAR)
     check_free(chk, m, L, R, CUR, PAR)
+    check_list_iterators(chk, m, L, R, CUR, PAR)
